@@ -168,48 +168,30 @@ end split
 section ufdef
 variable {α : Type} [OfNat α 1]
 
-/-- what the code does with `None` entries of `uf_reds` against the docstring of `DR_Def.add`
-(observation (a), a finding): with `defaults['uf_reds'] = (1, 1, 2, 1)` and `uf_reds = (0, None, None,
-None)` the docstring promises `(0, 1, 2, 1)` — the dynamic factor of the defaults —, the code stores
-`(0, 1, 1, 1)`. -/
-theorem uf_reds_none_entries_counterexample :
-    addUfReds (some [some (1 : Int), some 1, some 2, some 1]) (some [some 0, none, none, none]) = [0, 1, 1, 1] ∧
-    addUfRedsDoc (some [some (1 : Int), some 1, some 2, some 1]) (some [some 0, none, none, none]) = [0, 1, 2, 1] := by
-  decide
-
-/-- the documented reset of `None` entries holds when there is nothing to reset or nothing to take
-from: `uf_reds` not given at all (the whole tuple of `defaults` is used), given without `None`
-entries, or no `uf_reds` in `defaults`; both sides then agree.  The full statement — for ALL
-`defaults` and `uf_reds` — is false for the code (`uf_reds_none_entries_counterexample`). -/
-theorem uf_reds_none_entries_documented_partial (defaults given : Option (List (Option α)))
-    (hd : ∀ dl, defaults = some dl → dl.length = 4) (hg : ∀ g, given = some g → g.length = 4)
-    (h : given = none ∨ defaults = none ∨ ∀ g, given = some g → ∀ x ∈ g, x ≠ none) :
+/-- ★ `DR_Def.add` stores the documented factors for EVERY combination: `uf_reds` absent or given with
+`None` entries anywhere, `defaults['uf_reds']` absent, present, or with `None` entries of its own — an
+entry given wins, else the corresponding entry of the defaults, else 1 (the code after fix 8b1ec50,
+finding F56; before it a `None` entry became 1 and e.g. `(0, None, None, None)` lost the dynamic
+factor of the defaults). -/
+theorem uf_reds_none_entries_documented (defaults given : Option (List (Option α)))
+    (hd : ∀ dl, defaults = some dl → dl.length = 4) :
     addUfReds defaults given = addUfRedsDoc defaults given := by
   have len4 : ∀ (l : List (Option α)), l.length = 4 → ∃ a b c d, l = [a, b, c, d] := by
     intro l hl
     match l, hl with
     | [a, b, c, d], _ => exact ⟨a, b, c, d, rfl⟩
   cases given with
+  | some g => rfl
   | none =>
     cases defaults with
     | none => rfl
     | some dl =>
       obtain ⟨a, b, c, d, rfl⟩ := len4 dl (hd dl rfl)
-      rfl
-  | some g =>
-    obtain ⟨a, b, c, d, rfl⟩ := len4 g (hg g rfl)
-    cases defaults with
-    | none => cases a <;> cases b <;> cases c <;> cases d <;> rfl
-    | some dl =>
-      obtain ⟨a', b', c', d', rfl⟩ := len4 dl (hd dl rfl)
-      rcases h with h | h | h
-      · cases h
-      · cases h
-      · have ha := h _ rfl a (by simp)
-        have hb := h _ rfl b (by simp)
-        have hc := h _ rfl c (by simp)
-        have hd' := h _ rfl d (by simp)
-        cases a <;> cases b <;> cases c <;> cases d <;> simp_all [addUfReds, addUfRedsDoc, mergeUfReds]
+      cases a <;> cases b <;> cases c <;> cases d <;> rfl
+
+/-- the finding's input, evaluated: the dynamic factor of the defaults is kept -/
+example : addUfReds (some [some (1 : Int), some 1, some 2, some 1]) (some [some 0, none, none, none])
+    = [0, 1, 2, 1] := by decide
 
 end ufdef
 
